@@ -21,7 +21,7 @@ func init() {
 	core.Register(&core.Check{
 		ID: "C09", World: "R (relying party)", Level: "exploration",
 		Rule: "one evaluation = one seeded schedule of 2-4 tasks that share one validator closure (SNPValidateFunc / SNPFamilyValidateFunc), one verify.Options value across closures, or one SevValidateOptions value, each validating its own attestation (endorsed measurement, un-endorsed measurement, measurement of another VMSA count) with its own blob source (certificate table, getter, options); " +
-			"tasks are real goroutines of which exactly one is runnable: they park at yield points (the network getter, the certificate-pool constraint callback inside CheckCertificate and, in the instrumented worker, before EVERY statement of verify.go / sevvalidate.go / sevpolicy.go / tdxvalidate.go / tdxpolicy.go) and the seeded scheduler picks who resumes (uniform, or switch-with-probability p); " +
+			"tasks are real goroutines of which exactly one is runnable: they park at yield points (the network getter, the certificate-pool constraint callback inside CheckCertificate and, in the instrumented worker, before EVERY statement of verify.go / sevvalidate.go / sevpolicy.go / tdxvalidate.go / tdxpolicy.go) and the seeded scheduler picks who resumes (uniform, switch-with-probability p, or PCT-style priorities with up to 3 priority-change points); " +
 			"oracle: every call's result equals the result of the same call alone on a fresh identically configured options value; an un-endorsed report is rejected; a later isolated call through the shared value behaves like a fresh one; non-trivial = at least one context switch while two calls are in flight; distinct by schedule signature",
 		Assumptions: []string{
 			"the race detector pass is not part of this check: the deciding evidence is the seeded schedule exploration over inserted yield points",
@@ -48,6 +48,11 @@ type sched struct {
 	maxSteps int
 	switchP  int // 0: uniform pick; else probability (percent) of leaving the running task at a yield
 	last     int
+	// PCT-style strategy (when prio != nil): run the runnable task of highest priority; at each of
+	// a few drawn step numbers the running task's priority drops below everyone else's.
+	prio    []int
+	changes map[int]bool
+	step    int
 }
 
 type stask struct {
@@ -101,7 +106,23 @@ func (s *sched) run(fns []func()) {
 			break
 		}
 		var pick *stask
-		if s.switchP > 0 && s.last >= 0 && !s.tasks[s.last].done && !s.r.Chance(s.switchP, "switch?") {
+		s.step++
+		if s.prio != nil {
+			if s.changes[s.step] && s.last >= 0 {
+				lowest := 0
+				for _, p := range s.prio {
+					if p < lowest {
+						lowest = p
+					}
+				}
+				s.prio[s.last] = lowest - 1
+			}
+			for _, t := range runnable {
+				if pick == nil || s.prio[t.id] > s.prio[pick.id] {
+					pick = t
+				}
+			}
+		} else if s.switchP > 0 && s.last >= 0 && !s.tasks[s.last].done && !s.r.Chance(s.switchP, "switch?") {
 			pick = s.tasks[s.last]
 		} else {
 			pick = runnable[s.r.Intn(len(runnable), "pick")]
@@ -148,7 +169,10 @@ func runC09(r *core.Run) {
 		net.Objects[SnpURL(m)] = is.Bytes
 	}
 	s := &sched{r: r, maxSteps: 400}
-	switch r.Intn(4, "strategy") {
+	pct := false
+	switch r.Intn(6, "strategy") {
+	case 4, 5:
+		pct = true
 	case 0:
 		s.switchP = 0
 	case 1:
@@ -174,6 +198,21 @@ func runC09(r *core.Run) {
 		named = []uint32{2, 4, 8}[r.Intn(3, "named")]
 	}
 	nTasks := 2 + r.Intn(3, "tasks")
+	if pct {
+		// random distinct priorities and d <= 3 priority change points among the first ~300 steps
+		s.prio = make([]int, nTasks)
+		for i := range s.prio {
+			s.prio[i] = i
+		}
+		for i := nTasks - 1; i > 0; i-- {
+			j := r.Intn(i+1, "prio-shuffle")
+			s.prio[i], s.prio[j] = s.prio[j], s.prio[i]
+		}
+		s.changes = map[int]bool{}
+		for i, d := 0, 1+r.Intn(3, "pct-depth"); i < d; i++ {
+			s.changes[1+r.Intn(300, "pct-change-at")] = true
+		}
+	}
 	tasks := make([]*c09Task, nTasks)
 	for i := range tasks {
 		t := &c09Task{source: r.Intn(3, "source")}
